@@ -52,4 +52,7 @@ class Bounded:
             self.samples.append(repr(key)[:300])
 
     def fail(self, check, input_, detail=""):
+        self.n_failures = getattr(self, "n_failures", 0) + 1
+        if sum(1 for f in self.failures if f["check"] == check) >= 5:
+            return  # keep the first few failing inputs per check
         self.failures.append({"check": check, "input": input_ if isinstance(input_, (str, int, float, list, dict, type(None))) else repr(input_), "detail": str(detail)[:2000]})
